@@ -7,6 +7,8 @@
 //
 //   WILD_SIM_SYSFAULT="open#3=EMFILE;write#1=short:100;mmap#2=ENODEV"
 //       <call>#<n>=<errno name> | short:<bytes>      n is the 1-based occurrence of that call kind
+//   WILD_SIM_SYSFAULT_DIR=<abs dir>  also track absolute paths below this directory (except *.sim.*,
+//                                  *.plan, *.syslog: the simulator's own files)
 //   WILD_SIM_SYSFAULT_LOG=<path>   one line per fired fault ("fired <call> <n> <action> <detail>")
 //                                  and per-kind totals at process exit ("count <pid> <call> <total>")
 //
@@ -47,6 +49,8 @@ static int log_fd = -1;
 static int active;
 #define MAX_FD 4096
 static unsigned char tracked[MAX_FD];
+static const char *track_dir;   // WILD_SIM_SYSFAULT_DIR: absolute paths below it are tracked too
+static size_t track_dir_len;
 
 static const struct { const char *name; int val; } ERRNOS[] = {
     {"EMFILE", EMFILE}, {"ENFILE", ENFILE}, {"ENOSPC", ENOSPC}, {"EACCES", EACCES}, {"EIO", EIO},
@@ -89,6 +93,9 @@ __attribute__((constructor)) static void init(void) {
     const char *lg = getenv("WILD_SIM_SYSFAULT_LOG");
     if (!spec && !lg) return;
     active = 1;
+    track_dir = getenv("WILD_SIM_SYSFAULT_DIR");
+    if (track_dir && track_dir[0] != '/') track_dir = NULL;
+    track_dir_len = track_dir ? strlen(track_dir) : 0;
     if (lg) {
         long fd = raw(SYS_openat, AT_FDCWD, (long)lg, O_WRONLY | O_CREAT | O_APPEND | O_CLOEXEC, 0644, 0, 0);
         if (fd >= 0) {
@@ -126,6 +133,14 @@ __attribute__((constructor)) static void init(void) {
 static int is_tracked_path(const char *path) {
     if (!active || !path) return 0;
     if (path[0] != '/') return 1;
+    if (track_dir && !strncmp(path, track_dir, track_dir_len)) {
+        // ... except the simulator's own control files, which may live in the same directory
+        size_t n = strlen(path);
+        if (strstr(path, ".sim.")) return 0;
+        if (n > 5 && !strcmp(path + n - 5, ".plan")) return 0;
+        if (n > 7 && !strcmp(path + n - 7, ".syslog")) return 0;
+        return 1;
+    }
     return 0;
 }
 static int is_tracked_fd(int fd) { return active && fd >= 0 && fd < MAX_FD && tracked[fd]; }
